@@ -20,8 +20,12 @@ func VP_C14_Log() {
 	w := zzvp.Root()
 	n := 1 + zzvp.Choose(zzvp.Param("commits", 4))
 	var chain []string // oldest first
+	cyc := n // every commit has its own snapshot ...
+	if n >= 3 && zzvp.Choose(2) == 1 {
+		cyc = 2 // ... or the content alternates, so that commits two apart record the same tree
+	}
 	for i := 0; i < n; i++ {
-		zzvp.WriteFile(w+"/f", []byte{byte('a' + i)})
+		zzvp.WriteFile(w+"/f", []byte{byte('a' + i%cyc)})
 		vpOK(zzvp.Run("add", "f"))
 		vpOK(zzvp.Run("commit", "-m", "m"+string(rune('0'+i))))
 		id, _, _ := vpBranch("main")
